@@ -836,7 +836,51 @@ matrix_subscr(matrix* self, PyObject* args)
 int spmatrix_getitem_ij(spmatrix *, int_t, int_t, number *) ;
 
 static int
+matrix_ass_subscr_noalias(matrix* self, PyObject* args, PyObject* val);
+
+/*
+  A[I] = val.  The index lists and the right-hand side are read while self is
+  written, so arguments that are self itself (A[::-1] = A, A[A] = 0) are
+  replaced by copies first.
+ */
+static int
 matrix_ass_subscr(matrix* self, PyObject* args, PyObject* val)
+{
+  PyObject *a = NULL, *v = NULL;
+  int k, ret = -1;
+
+  if (val == (PyObject *)self) {
+    if (!(v = (PyObject *)Matrix_NewFromMatrix(self, self->id))) return -1;
+    val = v;
+  }
+  if (args == (PyObject *)self) {
+    if (!(a = (PyObject *)Matrix_NewFromMatrix(self, self->id))) goto done;
+    args = a;
+  }
+  else if (PyTuple_Check(args) && PyTuple_GET_SIZE(args) == 2 &&
+      (PyTuple_GET_ITEM(args, 0) == (PyObject *)self ||
+       PyTuple_GET_ITEM(args, 1) == (PyObject *)self)) {
+    if (!(a = PyTuple_New(2))) goto done;
+    for (k=0; k<2; k++) {
+      PyObject *it = PyTuple_GET_ITEM(args, k);
+      if (it == (PyObject *)self) {
+        if (!(it = (PyObject *)Matrix_NewFromMatrix(self, self->id))) goto done;
+      }
+      else Py_INCREF(it);
+      PyTuple_SET_ITEM(a, k, it);
+    }
+    args = a;
+  }
+  ret = matrix_ass_subscr_noalias(self, args, val);
+
+ done:
+  Py_XDECREF(a);
+  Py_XDECREF(v);
+  return ret;
+}
+
+static int
+matrix_ass_subscr_noalias(matrix* self, PyObject* args, PyObject* val)
 {
   matrix *Il = NULL, *Jl = NULL;
   int_t i, j, id = self->id, decref_val = 0;
